@@ -146,6 +146,36 @@ func ruleGFee(c *Ctx) {
 	}
 }
 
+// ruleGQuote: the fee of a type is stored under and looked up by the caller's type key.
+func ruleGQuote(c *Ctx) {
+	if fn := c.P.Func("", "*FeeQuote", "AddQuote"); fn != nil {
+		n, ok := 0, false
+		for _, b := range fn.Blocks {
+			for _, ins := range b.Instrs {
+				if mu, isMU := ins.(*ssa.MapUpdate); isMU {
+					n++
+					ok = mu.Key == ssa.Value(fn.Params[1]) && mu.Value == ssa.Value(fn.Params[2])
+				}
+			}
+		}
+		c.Check(n == 1 && ok, "G-fee", "FeeQuote.AddQuote", fn.Pos(), "stores the given fee under the given fee type", "AddQuote no longer stores the given fee under the fee type it was called with (a quote lands in another slot)")
+	} else {
+		c.Undecided("G-fee", "FeeQuote.AddQuote", token.NoPos, "not found")
+	}
+	if fn := c.P.Func("", "*FeeQuote", "Fee"); fn != nil {
+		n, ok := 0, false
+		for _, b := range fn.Blocks {
+			for _, ins := range b.Instrs {
+				if lk, isL := ins.(*ssa.Lookup); isL {
+					n++
+					ok = lk.Index == ssa.Value(fn.Params[1])
+				}
+			}
+		}
+		c.Check(n == 1 && ok, "G-fee", "FeeQuote.Fee", fn.Pos(), "looks the fee up under the requested type", "Fee no longer looks up the requested fee type")
+	}
+}
+
 // condSumLoop recognises  acc := 0; for _, e := range recv.F { if G(e) { acc += X(e) } }  inside a
 // larger function and returns the accumulator phi at loop exit with the guard and summand terms.
 func condSumLoop(p *Prog, fn *ssa.Function) (acc *ssa.Phi, over, guard, elem string, ok bool) {
@@ -360,6 +390,46 @@ func rulePEst(c *Ctx) {
 	sort.Strings(conds)
 	joined := strings.Join(conds, " && ")
 	c.Check(strings.Contains(joined, "PreviousTxScript == nil") && strings.Contains(joined, "!"), "P-est", "Tx.estimatedFinalTx/script-present", dummyStore.Pos(), "the dummy is installed only after the nil test on the spent script: "+joined, "the spent script is used without the nil test that reports ErrEmptyPreviousTxScript")
+	// which inputs receive the dummy: exactly those whose own unlocking script is nil or empty
+	{
+		b := dummyStore.Block()
+		from := b.Idom()
+		for from != nil {
+			if iff, isIf := from.Instrs[len(from.Instrs)-1].(*ssa.If); isIf {
+				t := atomName(newTermEnv().Term(iff.Cond))
+				if strings.Contains(t, "UnlockingScript") {
+					if up := from.Idom(); up != nil {
+						if i2, ok := up.Instrs[len(up.Instrs)-1].(*ssa.If); ok && strings.Contains(atomName(newTermEnv().Term(i2.Cond)), "UnlockingScript") {
+							from = up
+						}
+					}
+					break
+				}
+			}
+			from = from.Idom()
+		}
+		okUnsigned := false
+		detail := "no test of the unlocking script"
+		if from != nil {
+			paths, _ := regionPaths(from, b, 32)
+			atoms, table, _ := dnfTable(paths)
+			in := "(*bt.Tx).Clone(p0).Inputs[(phi"
+			detail = fmt.Sprintf("%v %v", atoms, table)
+			if len(atoms) == 2 {
+				a0, a1 := atoms[0], atoms[1]
+				isLen := func(a string) bool { return strings.HasPrefix(a, "(len(*"+in) && strings.HasSuffix(a, ".UnlockingScript) == 0)") }
+				isNil := func(a string) bool { return strings.HasPrefix(a, "("+in) && strings.HasSuffix(a, ".UnlockingScript == nil)") }
+				// atoms are sorted: "(len(...) == 0)" < "(*bt.Tx)..."? compare both orders
+				switch {
+				case isLen(a0) && isNil(a1):
+					okUnsigned = !table["00"] && table["10"] && table["01"] && table["11"]
+				case isNil(a0) && isLen(a1):
+					okUnsigned = !table["00"] && table["10"] && table["01"] && table["11"]
+				}
+			}
+		}
+		c.Check(okUnsigned, "P-est", "Tx.estimatedFinalTx/unsigned-test", dummyStore.Pos(), "an input of the clone gets the dummy exactly when its unlocking script is nil or empty", "the inputs treated as unsigned are no longer exactly those with a nil or empty unlocking script (clones and parsed transactions carry empty, non-nil scripts): "+detail)
+	}
 	// error identity on the failing branches
 	errs := map[string]bool{}
 	for _, d := range paths {
